@@ -9,6 +9,9 @@ from vlib.term import C, Nat, Some, opt
 
 HEADER = "From Coq Require Import ZArith List.\nFrom TV Require Import Common.Harness C13.Model C13.Law C13.Corr."
 CASE_T = "C13.Corr.case"
+HEADER_L = ("From Coq Require Import ZArith List.\n"
+            "From TV Require Import Common.Harness C13.Model C13.Law C13.Corr C13.CorrL.")
+CASE_T_L = "C13.CorrL.case"
 PROPS = ["C13/Props.v"]
 KIND = {0: "Python", 1: "Any", 2: "Disallow", 3: "ReadOnly", 4: "Constant", 5: "Event", 6: "Typed",
         7: "dunder", 8: "no-rule", 9: "add-remove"}
@@ -90,6 +93,16 @@ def to_term(case, obs):
     main = [(op[-1] == "B", t[0], t[1]) for op, t in zip(case["ops"][ne:], h[ne:])]
     return (classes[:len(classes) - nlate], Nat(case.get("precls", case["cls"])), h[:ne],
             classes[len(classes) - nlate:], Nat(case["cls"]), main, [Nat(k) for k in obs[0]["mro"]])
+
+
+def to_term_l(case, obs):
+    """Cases with a trait_added listener (C13/CorrL.v): two fresh instances of class `cls`."""
+    classes = [C("mkClass", [(name_term(n), pol_term(p)) for n, p in cd["decls"]], [Nat(b) for b in cd["bases"]])
+               for cd in case["classes"]]
+    h = [(op[-1] == "B", op_term(op),
+          C("mkObs", out_term(ob["out"]), opt(ob["stored"]), opt(ob["shadow"]), opt(ob["base"])), opt(ob["inst"]))
+         for op, ob in zip(case["ops"], obs)]
+    return (classes, Nat(case["cls"]), [(name_term(q), pol_term(p)) for q, p in case["listener"]], h)
 
 
 # ----- failure signatures ----------------------------------------------------
@@ -375,6 +388,56 @@ def mapped_history(h, rnd, ctx, maxlen):
     return dict(h, ops=ops, kind="mapped")
 
 
+LISTENER_POLS = [["Typed", "VInt", 7], ["Constant", 3], ["ReadOnly"], ["Event"], ["Disallow"], ["Any", 5],
+                 ["Typed", "VStr", 102], ["Typed", "VInt", 7], ["Constant", 104]]
+
+
+def listener_history(rnd, ctx, maxlen):
+    """A class whose trait_added listener declares traits lazily (names with a prefix of the table get an
+    instance trait the first time they are resolved for the class); first touches are get / set valid /
+    set invalid / del / add_trait, on two instances (the second one finds the names already resolved)."""
+    root = rnd.choice([0, 0, 1, 2])
+    classes = [{"decls": gen_decls(rnd, ctx, 2), "bases": [root]}]
+    if rnd.random() < 0.3:
+        classes.append({"decls": gen_decls(rnd, ctx, 1), "bases": [NROOTS]})
+    prefixes = rnd.sample(["n", "k", "_n", "ab", "b_"], rnd.randint(1, 2))
+    table = [[q, rnd.choice(LISTENER_POLS)] for q in prefixes]
+    for q, p in table:
+        ctx.count("listener-policy:" + p[0])
+    names = [q + x for q in prefixes for x in ("a", "b")] + ["zz"]
+    ops = []
+    for _ in range(rnd.randint(3, maxlen)):
+        n = rnd.choice(names)
+        r = rnd.random()
+        if r < 0.30:
+            op = ["Get", n]
+        elif r < 0.70:
+            op = ["Set", n, rnd.choice(VALUES)]
+        elif r < 0.80:
+            op = ["Del", n]
+        elif r < 0.90:
+            op = ["Add", n, rnd.choice([q for q in POLS if q != ["Event", "VInt"]])]
+        else:
+            op = ["Rem", n]
+        ctx.count("listener-op:" + op[0])
+        ops.append(op + ["B"] if rnd.random() < 0.3 else op)
+    return {"classes": classes, "cls": NROOTS + len(classes) - 1, "listener": table, "ops": ops, "kind": "listener"}
+
+
+def listener_corpus():
+    """The demo of seeded change C13-n2: first touch = invalid write / write to a Constant / read."""
+    tab = [["n_", ["Typed", "VInt", 7]], ["k_", ["Constant", 3]]]
+    cs = []
+    for root in (0, 1, 2):
+        for first in (["Set", "n_b", 101], ["Set", "k_c", 1], ["Get", "n_d"], ["Del", "n_e"], ["Set", "n_f", 5],
+                      ["Add", "n_g", ["Typed", "VStr", 102]], ["Get", "k_h"]):
+            n = first[1]
+            cs.append({"classes": [{"decls": [], "bases": [root]}], "cls": 3, "listener": tab, "kind": "listener-corpus",
+                       "ops": [first, ["Get", n], ["Set", n, 101], ["Set", n, 6], ["Get", n], ["Get", n, "B"],
+                               ["Set", n, 101, "B"], ["Rem", n], ["Get", n], ["Set", "zz", 1], ["Get", "zz"]]})
+    return cs
+
+
 def two_instance_history(h, rnd, ctx, maxlen):
     """Operations interleaved on two instances of one class: shared cache, separate traits and values."""
     names = focus_names(h, rnd)
@@ -496,9 +559,23 @@ def run(ctx):
         ctx.sample(c)
     # batches of 7 shards: a coqc on a 1000-case shard needs up to 1.8 GB, and the machine is shared
     BATCH = 7000
-    for b in range(0, len(cases), BATCH):
-        hist.run(ctx, "c13_driver.py", cases[b:b + BATCH], to_term, HEADER, CASE_T, key_fn, describe, nontrivial,
+    main_cases = [] if (ctx.replay and "listener" in cases[0]) else cases
+    for b in range(0, len(main_cases), BATCH):
+        hist.run(ctx, "c13_driver.py", main_cases[b:b + BATCH], to_term, HEADER, CASE_T, key_fn, describe, nontrivial,
                  relation="C13.Corr.corr_codes (Model.step = HasTraits attribute access on every step)"
                           + (" [cases %d-%d]" % (b, min(len(cases), b + BATCH) - 1) if len(cases) > BATCH else ""),
                  tag="cases%d" % (b // BATCH))
+    # classes with a trait_added listener (C13/CorrL.v: step_l, law with adoption of the listener's trait)
+    if not ctx.replay or "listener" in cases[0]:
+        if ctx.replay:
+            lcases = cases
+        else:
+            lcases = listener_corpus() + [listener_history(rnd, ctx, maxlen)
+                                          for _ in range(200 if ctx.tier == "quick" else 3000)]
+            for c in lcases:
+                ctx.count("case:" + c["kind"])
+                ctx.count("probes(ops)", len(c["ops"]))
+        hist.run(ctx, "c13_driver.py", lcases, to_term_l, HEADER_L, CASE_T_L, key_fn, describe, nontrivial,
+                 relation="C13.CorrL.corr_codes (Model.step_l = attribute access on classes with a trait_added listener)",
+                 tag="listener")
     proof_gate(ctx, ok, log, PROPS)
